@@ -296,7 +296,7 @@ def gen_interp_case(rng, esk):
                 target = hi + rng.uniform(1.1e-6, 40.0)
         boh = 0.0 if where == "zero" else B / target
         calls.append({"kind": kind, "where": where, "target": target, "b_over_h": boh})
-    return {"style": style, "B": B, "d": rng.choice([2.0, 5.0]), "log_time": lt, "curves": curves, "calls": calls}
+    return {"style": style, "B": B, "d": rng.choice([0.0, 0.1, 2.0, 5.0]), "log_time": lt, "curves": curves, "calls": calls}
 
 
 def make_gfunction(case):
@@ -391,7 +391,7 @@ def check_interp(ctx, cases):
             else:
                 mg, mrb, mh, mw, ms, _mc = mo.split(" ")
                 mg = PL(mg)
-                ok = (len(mg) == len(r["g"]) and Fraction(r["h_eq"]) == core.pr(mh) and (mw == "1") == r["warned"]
+                ok = (len(mg) == len(r["g"]) and Fraction(r["h_eq"]) == core.pr(mh) and (mw == "1") == r["warned"] and r["d"] == c["d"]
                       and (tol is None or (close(r["rb"], core.pr(mrb), tol) and all(close(a, b, tol) for a, b in zip(r["g"], mg)))))
                 if ok and tol is not None and mg:
                     dev = max(abs(a - float(b)) / max(1.0, abs(float(b))) for a, b in zip(r["g"], mg))
@@ -425,6 +425,8 @@ def check_interp(ctx, cases):
                         finding(ctx, f"interp-node-curve-n{min(n, 6)}-{kind}", "interpolating at a stored height does not return the stored curve", rep)
                     elif r["warned"]:
                         finding(ctx, f"interp-node-warned-n{min(n, 6)}", "extrapolation warning at a stored height", rep)
+                    elif r["d"] != c["d"]:
+                        finding(ctx, "interp-buried-depth", f"returned buried depth {r['d']!r}, stored {c['d']!r}", rep)
 
 
 # ----------------------------------------------------------------------------- 3. radius correction
@@ -496,7 +498,7 @@ def gen_real_case(rng, k):
     coords = rng.choice([[(0.0, 0.0)], [(0.0, 0.0), (5.0, 0.0)], [(0.0, 0.0), (5.0, 0.0), (0.0, 5.0)],
                          [(0.0, 0.0), (6.0, 0.0), (0.0, 6.0), (6.0, 6.0)]])
     return {"H": target, "alpha": alpha, "k": ksoil, "heights": heights, "at": at, "coords": coords,
-            "dia": rng.choice([0.11, 0.14, 0.15]), "D": round(rng.uniform(1.0, 4.0), 1),
+            "dia": rng.choice([0.11, 0.14, 0.15]), "D": rng.choice([0.0, 0.1, 0.5, round(rng.uniform(1.0, 4.0), 1), 2.0]),
             "rb_ref_factor": rng.choice([1.0, 1.0, 0.8, 1.3]), "pipe": rng.choice(["SINGLEUTUBE", "SINGLEUTUBE", "DOUBLEUTUBEPARALLEL", "COAXIAL"])}
 
 
@@ -522,7 +524,7 @@ def real_worker(case):
         gi, rbv, _, heq = gf.g_function_interpolation(boh)   # table reused
     rn = ghe.radial_numerical
     return {
-        "B": float(gf.B), "d": float(gf.d), "log_time": [float(v) for v in gf.log_time],
+        "B": float(gf.B), "d": float(gf.d), "d_in": float(case["D"]), "log_time": [float(v) for v in gf.log_time],
         "curves": [[float(h), float(gf.r_b_values[h]), [float(v) for v in gf.g_lts[h]]] for h in gf.g_lts],
         "boh": float(boh), "rb_star": float(ghe.bhe.b.r_b),
         "sts": [float(v) for v in rn.lntts.tolist()], "g_sts": [float(v) for v in rn.g.tolist()],
@@ -592,6 +594,9 @@ def check_real(ctx, cases, results):
         if r["gy"][nk:] != r["by"][nk:]:
             finding(ctx, "grab-g-vs-gbhw", "g and g_bhw differ on the long-time points", rep)
         ctx.count("real_predicate_evaluated")
+        ctx.count("real_depth:" + ("0" if c["D"] == 0 else "0-1" if c["D"] < 1 else "1-4"))
+        if r["d"] != c["D"]:
+            finding(ctx, "grab-buried-depth", f"GFunction.d = {r['d']!r} for a borehole buried at {c['D']!r}", rep)
         if c["at"] == "stored":
             cv = next(cv for cv in r["curves"] if cv[0] == c["H"])
             shift = float(dec_log(r["rb_star"]) - dec_log(cv[1]))
@@ -603,6 +608,9 @@ def check_real(ctx, cases, results):
 
 
 # ----------------------------------------------------------------------------- 5. finite-line-source anchor
+DEPTHS = [0.0, 0.0, 0.1, 0.5, None, 2.0, 0.0, 1.0, None, 5.0, 0.1]   # None: uniform 1-6 m
+
+
 def gen_field(rng, k, max_n):
     if k == 0:
         name, coords = "single", [(0.0, 0.0)]
@@ -632,7 +640,12 @@ def gen_field(rng, k, max_n):
         coords = coords[:max_n]
     H1 = round(math.exp(rng.uniform(math.log(20.0), math.log(400.0))), 1)
     H2 = round(H1 * rng.uniform(0.5, 0.9), 1)
-    return {"name": name, "coords": coords, "heights": [H1, H2] if k % 2 == 0 else [H1], "D": round(rng.uniform(0.5, 6.0), 2),
+    # buried depth: the boundary value 0.0 (head at the surface; borehole.schema.json allows it), small and
+    # typical ones — by position, so that every tier has 0.0 on a single borehole *and* on a field
+    depth = DEPTHS[k % len(DEPTHS)]
+    if depth is None:
+        depth = round(rng.uniform(1.0, 6.0), 2)
+    return {"name": name, "coords": coords, "heights": [H1, H2] if k % 2 == 0 else [H1], "D": depth,
             "rb": rng.choice([0.055, 0.0635, 0.075, 0.1]), "alpha": rng.uniform(0.3e-6, 2e-6)}
 
 
@@ -715,6 +728,7 @@ def check_fls(ctx, fields, results, esk):
         n = len(f["coords"])
         ctx.count(f"fls_field:{f['name']}")
         ctx.count("fls_size:" + ("1" if n == 1 else "2-16" if n <= 16 else "17-64" if n <= 64 else "65-150"))
+        ctx.count("fls_depth:" + ("0" if f["D"] == 0 else "0-1" if f["D"] < 1 else "1-6"))
         ctx.case(("fls", f["name"], n, h, f["D"], f["rb"]), True, {"fls_field": f["name"], "n": n, "H": h, "D": f["D"], "rb": f["rb"],
                                                                       "g_last": gU[-1]} if len(ctx.samples) < 6 else None)
         dev = max(abs(a - b) for a, b in zip(gU, gF))
@@ -827,6 +841,7 @@ def run(ctx: core.Ctx):
         "CPython float rounding within 1e-9 relative (1e-6 for scipy.lagrange's poly1d in coefficient form)",
         "FLS anchor: Lean Float evaluator (own erf series, 12-point Gauss-Legendre in ln s) and pygfunction — a differential test, level translation_validation",
     ]
+    ctx.extra["fls_depths"] = "buried depth by field position from [0, 0, 0.1, 0.5, U(1,6), 2, 0, 1, U(1,6), 5, 0.1] m; the FLS evaluator gets the same depth"
     ctx.assumptions += [
         "r_b_values and g_lts have the same keys in the same order (true for every object built by calc_g_func_for_multiple_lengths)",
         "the model receives 1/b_over_h*B as the double the implementation computes (the harness evaluates that one expression in floats); "
